@@ -103,11 +103,12 @@ def log_files():
 
 
 def crc_target_stream(bundle, rnd, pool):
-    """every CRC-targeted frame, each followed by an ordinary frame -> (bytes, [frame bytes])"""
+    """every special and every CRC-targeted frame (lengths 2, 3, 255, 256, 1023, maximal messages, frame-like
+    payloads, chosen CRC bytes), each followed by an ordinary frame -> (bytes, [frame bytes])"""
     from .decode_rec import frame_of
 
     frames = []
-    for pl in crc_targeted_payloads(bundle, rnd):
+    for pl in special_payloads(bundle, rnd):
         frames.append(frame_of(pl))
         frames.append(frame_of(rnd.choice(pool[:20])))
     return b"".join(frames), frames
